@@ -39,7 +39,7 @@ from ..common import MachineryError, dumps
 
 STANDALONE = True
 STAGE = 'rotphantom'
-FIXED_IN_TREE = '-'          # letters of RotImpl switches that are repaired in the tree ('b' bounding box, 's' single-sided shift)
+FIXED_IN_TREE = 'b'          # letters of RotImpl switches that are repaired in the tree ('b' bounding box, 's' single-sided shift)
 GROUPS = ('euler', 'axis', 'fromto', 'tsys', 'misc', 'cub', 'ell')
 CORRUPT_ID = 999999999
 DMAX = 10 ** 5
@@ -188,19 +188,41 @@ def same(a, b):
         return False
 
 
+def snapshot(r):
+    if r is None or isinstance(r, (bool, np.bool_)):
+        return r
+    if isinstance(r, (tuple, list)):
+        return tuple(snapshot(x) for x in r)
+    return np.array(np.asarray(r), copy=True)
+
+
+def scribble(r, owned):
+    """overwrite what a call returned (unless it is the caller's own array handed back)"""
+    if isinstance(r, (tuple, list)):
+        for x in r:
+            scribble(x, owned)
+        return
+    arr = r if isinstance(r, np.ndarray) else getattr(getattr(r, 'tensor', None), 'data', None)
+    if isinstance(arr, np.ndarray) and arr.size and arr.flags.writeable and arr.dtype.kind in 'fc' \
+            and not any(np.shares_memory(arr, o) for o in owned):
+        arr += 7
+
+
 def observe(thunk, owned, post):
-    """run the real call twice; -> outcome record"""
+    """run the real call twice (the first result is overwritten in between); -> outcome record"""
     copies = [np.array(x, copy=True) for x in owned]
     try:
         with warnings.catch_warnings():
             warnings.simplefilter('ignore')
             r1 = thunk()
             mut = any(not same(x, c) for x, c in zip(owned, copies))
+            o = post(r1)
+            c1 = snapshot(r1)
+            scribble(r1, owned)
             r2 = thunk()
-        o = post(r1)
         o['k'] = 'ok'
         o['mut'] = bool(mut)
-        o['again'] = bool(same(r1, r2))
+        o['again'] = bool(same(c1, snapshot(r2)))
         return o
     except Exception as ex:                                     # the outcome is judged by the specification
         return {'k': 'err', 'exc': type(ex).__name__, 'mut': False, 'again': True}
@@ -738,6 +760,10 @@ def doc_examples():
     sp = [{'lo': tq(0), 'hi': tq(1), 'n': 4}, {'lo': tq(0), 'hi': tq(1), 'n': 6}]
     add('cub', {'sp': sp, 'lo': [], 'hi': []})
     add('cub', {'sp': sp, 'lo': iv(Fraction(1, 4), 0), 'hi': iv(Fraction(3, 4), Fraction(1, 2))})
+    zero2 = [[tq(1), tq(0)]]
+    add('ell', {'shape': [5, 5], 'i0': [], 'i1': [], 'cyl': False, 'ells': [
+        {'val': tq(1), 'ax': iv(1, 1), 'c': iv(0, 0), 'rot': zero2},
+        {'val': tq(1), 'ax': iv(Fraction(3, 5), Fraction(3, 5)), 'c': iv(0, 0), 'rot': zero2}]})
     add('projaxis', {'shape': [8, 8], 'default': True})
     add('projaxis', {'shape': [8, 8, 8], 'default': True})
     add('fromto', {'u': iv(1, 0, 0), 'v': iv(0, 3, 4)})
@@ -794,9 +820,10 @@ def rand_ells(rng, dim, n):
     for _ in range(n):
         val = tq(rng.choice((1, -1, 2, Fraction(1, 2), Fraction(1, 4), Fraction(-1, 2), 3)))
         if dim == 2:
-            ax = [tq(Fraction(rng.choice((2, 3, 4, 5, 6, 7, 8)), 8)) for _ in range(2)]
-            c = [tq(Fraction(rng.randint(-3, 3), 4)) for _ in range(2)]
             rot = [rng.choice(cs_pool(5))]
+            ks = (2, 3, 4, 6, 8) if rot[0][0][1] > 1 else (2, 3, 4, 5, 6, 7, 8)
+            ax = [tq(Fraction(rng.choice(ks), 8)) for _ in range(2)]
+            c = [tq(Fraction(rng.randint(-3, 3), 4)) for _ in range(2)]
         else:
             ax = [tq(Fraction(rng.choice((2, 3, 4, 6, 8)), 8)) for _ in range(3)]
             c = [tq(Fraction(rng.randint(-1, 1), 2)) for _ in range(3)]
@@ -809,12 +836,34 @@ def rand_ells(rng, dim, n):
     return ells
 
 
-def rand_box(rng, shape):
+def lcm_ok(shape, bound):
+    """TLC integers are 32-bit: the normalised coordinates -1 + 2 i / (n - 1) of all axes are mixed by a rotation, so the
+    least common multiple of the n - 1 is kept small"""
+    m = 1
+    for n in shape:
+        if n > 1:
+            m = m * (n - 1) // math.gcd(m, n - 1)
+    return m <= bound
+
+
+def rand_shape(rng, dim):
+    while True:
+        shape = [rng.randint(1, 13) for _ in range(2)] if dim == 2 else [rng.randint(1, 7) for _ in range(3)]
+        if lcm_ok(shape, 12 if dim == 2 else 6):
+            return shape
+
+
+def rand_box(rng, shape, check=True):
     k = rng.randrange(5)
     if k < 2 or min(shape) < 3:
         return [], []
-    i0 = [rng.randint(0, n // 2 - 1) if n >= 4 else 0 for n in shape]
-    i1 = [rng.randint(n // 2 + 1, n) for n in shape]
+    for _ in range(50):
+        i0 = [rng.randint(0, n // 2 - 1) if n >= 4 else 0 for n in shape]
+        i1 = [rng.randint(n // 2 + 1, n) for n in shape]
+        if not check or lcm_ok([b - a for a, b in zip(i0, i1)], 12 if len(shape) == 2 else 6):
+            break
+    else:
+        return [], []
     if k == 2:
         return i0, i1
     if k == 3:
@@ -905,12 +954,12 @@ def random_cases(seed, n):
                 out.append(('inside', {'lo': [tq(x) for x in lo], 'hi': [tq(x) for x in hi], 'mode': 'mesh', 'pts': pts}))
         elif r < 0.80:
             dim = rng.choice((2, 2, 3))
-            shape = [rng.randint(1, 12) for _ in range(2)] if dim == 2 else [rng.randint(1, 7) for _ in range(3)]
+            shape = rand_shape(rng, dim)
             i0, i1 = rand_box(rng, shape)
             out.append(('ell', {'shape': shape, 'ells': rand_ells(rng, dim, rng.choice((1, 1, 2, 3, 4))), 'i0': i0, 'i1': i1,
                                 'cyl': False}))
         elif r < 0.83:
-            shape = [rng.randint(2, 9), rng.randint(2, 9), rng.randint(1, 4)]
+            shape = rand_shape(rng, 2) + [rng.randint(1, 4)]
             out.append(('ell', {'shape': shape, 'ells': rand_ells(rng, 2, rng.choice((1, 2, 3))), 'i0': [], 'i1': [], 'cyl': True}))
         elif r < 0.89:
             nd = rng.choice((1, 2, 3))
@@ -941,9 +990,9 @@ def random_cases(seed, n):
             out.append(('smoothcub', {'sp': sp, 'lo': lo_pt, 'hi': hi_pt, 'axes': axes}))
         elif r < 0.96:
             dim = rng.choice((2, 3))
-            shape = [rng.randint(3, 14) for _ in range(2)] if dim == 2 else [rng.randint(2, 6), rng.randint(2, 6), rng.randint(3, 12)]
-            i0, i1 = rand_box(rng, shape)
-            out.append(('defrise', {'shape': shape, 'n': rng.randint(1, 6), 'alt': rng.random() < 0.5, 'i0': i0, 'i1': i1}))
+            shape = [rng.randint(3, 12), rng.randint(8, 24)] if dim == 2 else [rng.randint(2, 5), rng.randint(2, 5), rng.randint(8, 20)]
+            i0, i1 = rand_box(rng, shape, check=False)
+            out.append(('defrise', {'shape': shape, 'n': rng.randint(1, 5), 'alt': rng.random() < 0.5, 'i0': i0, 'i1': i1}))
         else:
             dim = rng.choice((2, 2, 3))
             shape = [rng.randint(8, 16) for _ in range(dim)] if dim == 2 else [rng.randint(8, 10) for _ in range(3)]
@@ -976,8 +1025,7 @@ def random_hists(seed, n):
                 d = 9 * 3
                 a = act(rng.choice(('fromto', 'tsys')), t=t)
             elif hist and hist[-1]['a'] != 'undo':
-                a, d = act('undo'), 1
-                den = 1
+                a, d = act('undo'), 1                           # the points keep their denominators
             else:
                 continue
             if den * d > 1500:
@@ -1076,7 +1124,7 @@ def run_stage(ctx):
     outs = {g: os.path.join(ctx.work, 'rot_%s.ndjson' % g) for g in GROUPS + ('hist',)}
     variants = 5 if thorough else 3
     pool = mp.get_context('fork').Pool(6)
-    fdrv = pool.apply_async(_driver_worker, ((ctx.seed, 6000 if thorough else 700, 1500 if thorough else 150),))
+    fdrv = pool.apply_async(_driver_worker, ((ctx.seed, 10000 if thorough else 700, 3000 if thorough else 150),))
 
     def group_job(g):
         if g == 'hist':
